@@ -133,7 +133,8 @@ class Skeleton:
             # tags are unique within a shape (Namer counters), so the identifier is a function of the tag only:
             # the reference side recomputes the same identifiers from a fresh instance of the shape
             ident = "h_" + re.sub(r"\W+", "_", p.tag).strip("_")
-            info = {"kind": "sym", "tag": p.tag, "preds": dict(p.preds), "wild": p.wild, "prov": _prov(p)}
+            info = {"kind": "sym", "tag": p.tag, "preds": dict(p.preds), "wild": p.wild, "prov": _prov(p),
+                    "escapes": [list(e) for e in getattr(p, "escapes", ())]}
         else:
             ident = "h_int_" + re.sub(r"\W+", "_", p.expr).strip("_")
             info = {"kind": "int", "expr": p.expr}
@@ -158,3 +159,109 @@ def _prov(p):
         inner = src.tag if isinstance(src, Sym) else (src.text() if isinstance(src, Tmpl) else str(src))
         return "%s(%s)" % (pr[1], inner)
     return str(pr)
+
+
+# ---------------------------------------------------------------- whole-program evaluation
+class AbstractFS:
+    """An input tree of protocol.xml files: {relative dir: <protocol> element}, enumerated in a given order."""
+
+    def __init__(self, root, files, order=None):
+        self.root = root
+        self.files = files
+        self.order = list(order) if order is not None else list(files)
+
+    def walk(self, root):
+        out = []
+        for d in self.order:
+            path = self.root if d == "" else self.root + "/" + d
+            subdirs = sorted({x[len(d):].lstrip("/").split("/")[0] for x in self.files if x != d and (d == "" or x.startswith(d + "/"))})
+            out.append((path, subdirs, ["protocol.xml"] if d in self.files else []))
+        return out
+
+    def listdir(self, p):
+        raise Unsupported("listdir on the abstract tree")
+
+    def parse(self, path):
+        p = path.s if hasattr(path, "s") else path
+        if not isinstance(p, str):
+            raise Unsupported("parse of a symbolic path")
+        rel = p[len(self.root):].strip("/")
+        d = rel[:-len("protocol.xml")].strip("/")
+        if d not in self.files:
+            raise PyRaise(ExcObj(ExcClassLookup.get("FileNotFoundError"), [p]))
+        return self.files[d]
+
+
+class ExcClassLookup:
+    table = {}
+
+    @classmethod
+    def get(cls, name):
+        return cls.table[name]
+
+
+class ProgramResult:
+    """Plain data: files written (path -> text with placeholders), in order; sink parameters."""
+
+    def __init__(self, trace, holes):
+        self.files = []
+        for f in trace.get("files", []):
+            self.files.append({"path": f.path_text, "mode": f.mode, "kw": {k: (v if isinstance(v, (str, bool, int, type(None))) else repr(v)) for k, v in f.kw.items()},
+                               "content": f.content_text})
+        self.makedirs = [(p, e) for p, e in trace.get("makedirs_text", [])]
+        self.nondeterminism = list(trace.get("nondeterminism", []))
+        self.order_dependent_calls = list(trace.get("fs_order_dependent", []))
+        self.holes = holes
+
+
+def run_program(session, tree_factory, order=None, runs=1, max_paths=64):
+    """Abstractly run ProtocolCodeGenerator(input).generate(output) `runs` times on one instance over the tree
+    returned by tree_factory() ({dir: protocol Elem}); returns Outcomes whose value is a list of ProgramResult."""
+    from .natives import PathObj
+    from .absint import explore
+
+    def task():
+        it = session.fresh()
+        for n in ("FileNotFoundError",):
+            ExcClassLookup.table[n] = it.builtins[n]
+        cg = it.load_module(CG)
+        files = tree_factory()
+        fs = AbstractFS("/in", files, order)
+        results = []
+        gen = it.call(cg.env["ProtocolCodeGenerator"], [PathObj("/in")], {})
+        for r in range(runs):
+            World.trace["fs"] = fs
+            World.trace["files"] = []
+            World.trace["makedirs"] = []
+            it.call(it.getattr(gen, "generate"), [PathObj("/out")], {})
+            sk = _Renderer()
+            for f in World.trace["files"]:
+                f.path_text = sk.render(f.path)
+                f.content_text = sk.render(f.content())
+            World.trace["makedirs_text"] = [(sk.render(p), e) for p, e in World.trace["makedirs"]]
+            results.append(ProgramResult(World.trace, sk.holes))
+        return results
+    return [Outcome(*r) for r in explore(task, max_paths, truncate=True)]
+
+
+class _Renderer:
+    def __init__(self):
+        self.holes = {}
+
+    def render(self, v):
+        v = v.s if hasattr(v, "s") and not isinstance(v, str) else v
+        v = simplify(v) if is_strlike(v) else v
+        if isinstance(v, str):
+            return v
+        out = []
+        for p in as_tmpl(v).parts:
+            if isinstance(p, str):
+                out.append(p)
+            else:
+                tag = p.tag if isinstance(p, Sym) else "int_" + p.expr
+                ident = "h_" + re.sub(r"\W+", "_", tag).strip("_")
+                self.holes[ident] = {"kind": "sym" if isinstance(p, Sym) else "int", "tag": tag,
+                                     "preds": dict(getattr(p, "preds", {})), "wild": getattr(p, "wild", False), "prov": _prov(p) if isinstance(p, Sym) else "",
+                                     "escapes": [list(e) for e in getattr(p, "escapes", ())]}
+                out.append(ident)
+        return "".join(out)
